@@ -4,7 +4,7 @@ their rendering as Go packages and as Coq terms, JSON bodies per result type,
 and the status / body / fault scenarios.
 
 API (kept small so that another check can reuse it):
-    gen_iface_pkg(rng, name, n_ifaces, n_methods, force=None) -> Pkg
+    gen_iface_pkg(rng, name, n_ifaces, n_methods, force=None, ctx_plan=()) -> Pkg
     render_go(pkg) -> {relative path: text}
     coq_fields(results) -> Coq term of type `list field`
     registry_go(module, pkgs) -> text of zz_registry.go for harness/go/cmd/c10drv
@@ -227,17 +227,31 @@ def uses(t, pkg):
 # -------------------------------------------------------------------- specs
 class Method:
     def __init__(self, name, verb, ctx, results):
-        self.name, self.verb, self.ctx, self.results = name, verb, ctx, results
+        """ctx: False (no context.Context parameter) or its position "first" | "middle" | "last" among the
+        parameters (True = "first")"""
+        self.name, self.verb, self.results = name, verb, results
+        self.ctx = "first" if ctx is True else (ctx or False)
         self.body_param = verb in BODY_VERBS
 
+    def params(self):
+        """parameter list; the context may stand anywhere (the generator finds it by its type)"""
+        own = ["in In"] if self.body_param else []
+        if self.ctx == "first" or not self.ctx:
+            return (["ctx context.Context"] if self.ctx else []) + own
+        lead = own or ["q string"]                 # a query parameter (non-body verbs)
+        if self.ctx == "last":
+            return lead + ["ctx context.Context"]
+        # middle: followed by a path parameter (body verbs bind no query) / a second query parameter
+        return lead + ["ctx context.Context", "id string" if self.body_param else "n int"]
+
+    def path(self):
+        if self.ctx == "middle" and self.body_param:
+            return "/%s/{id}" % self.name.lower()
+        return "/%s" % self.name.lower()
+
     def decl(self):
-        params = []
-        if self.ctx:
-            params.append("ctx context.Context")
-        if self.body_param:
-            params.append("in In")
-        return ('\t//shoot: %s("/%s")\n\t%s(%s)%s\n'
-                % (self.verb, self.name.lower(), self.name, ", ".join(params), go_results(self.results)))
+        return ('\t//shoot: %s("%s")\n\t%s(%s)%s\n'
+                % (self.verb, self.path(), self.name, ", ".join(self.params()), go_results(self.results)))
 
     def has_result(self):
         return len(self.results) == 3
@@ -266,24 +280,36 @@ class Pkg:
         return [(i, m) for i in self.ifaces for m in i.methods]
 
 
-def gen_iface_pkg(rng, name, n_ifaces, n_methods, force=None, ctx_first=0):
+# context positions of the first methods of the first package (deterministic classes of the quick tier):
+# the four shapes of the property text with a leading context, then last / middle for non-body and body verbs
+# (VERBS[k % 5]: Delete, Get, Post, Put), a leading one and none (Patch, Delete)
+CTX_PLAN = ["first", "first", "first", "first", "last", "middle", "last", "middle", "first", False]
+CTX_CYCLE = ["last", "middle", "first"]
+
+
+def gen_iface_pkg(rng, name, n_ifaces, n_methods, force=None, ctx_plan=()):
     """a package of n_ifaces interfaces x n_methods methods with accepted result lists.
     force: result types (None = no result) that must occur, assigned first;
-    the first ctx_first methods take a context.Context (others: 85%)."""
+    ctx_plan: context position of the first methods (others: none for 15% of the Get/Delete methods, else
+    last / middle / first in turn)."""
     todo = list(force or [])
     ifaces = []
     k = 0
     for i in range(n_ifaces):
         ms = []
         for j in range(n_methods):
-            forced = k < ctx_first
             if todo:
                 rt = todo.pop(0)
             else:
                 r = rng.random()
                 rt = None if r < 0.12 else rng.choice(BASE_RESULTS) if r < 0.3 else rng.choice(MORE_RESULTS)
             verb = VERBS[k % 5] if k < 10 else rng.choice(VERBS)
-            ctx = forced or not (verb in ("Get", "Delete") and rng.random() < 0.15)
+            if k < len(ctx_plan):
+                ctx = ctx_plan[k]
+            elif verb in ("Get", "Delete") and rng.random() < 0.15:
+                ctx = False
+            else:
+                ctx = CTX_CYCLE[k % 3]
             if rt is None:
                 # two-value signatures may carry names (cook.go only refuses names when n == 3); the
                 # names are drawn from a pool that contains the generated method's own identifiers
